@@ -5,7 +5,7 @@
     text contains no parameter token, and [sim] only looks at the entries whose
     token occurs in the text. *)
 From MWF Require Import Base.Str Base.Util Expand.PyStr Expand.PyStrProofs Expand.Expand
-     Expand.ExpandProofs Expand.ExpandInv.
+     Expand.ExpandProofs Expand.ExpandInv Expand.ExpandC08.
 From MWF Require Expand.Subst Expand.SubstProofs.
 From Coq Require Import List NArith Bool Arith Lia.
 Import ListNotations.
@@ -175,7 +175,7 @@ Lemma token_occurs_uses ps i p t x :
   In p ps -> (t = fst (lab_entry i p) \/ t = fst (val_entry i p) \/ t = fst (name_entry p)) ->
   occurs t x -> uses_key (p_key p) x = true.
 Proof.
-  intros _ [->|[->|->]]; simpl.
+  intros _ [ -> | [ -> | -> ] ]; simpl.
   - apply (occurs_tok_uses (p_key p) (Str.s ".label)")). intros b; reflexivity.
   - apply (occurs_tok_uses (p_key p) [c_rpar]). intros b; reflexivity.
   - apply (occurs_tok_uses (p_key p) (Str.s ".name)")). intros b; reflexivity.
@@ -211,7 +211,7 @@ Lemma ptable_In ps i e :
 Proof.
   unfold ptable. rewrite !in_app_iff, !in_map_iff. split.
   - intros [[p [<- Hp]]|[[p [<- Hp]]|[p [<- Hp]]]]; exists p; auto.
-  - intros [p [Hp [->|[->|->]]]]; eauto.
+  - intros [p [Hp [ -> | [ -> | -> ] ]]]; eauto.
 Qed.
 
 (** [apply_row] restricted to the parameters a text uses *)
@@ -234,10 +234,78 @@ Proof.
       apply ptable_In in He as [p [Hp He]].
       assert (Hk : In (p_key p) U).
       { apply Hu; [apply in_map; auto|]. apply (token_occurs_uses ps i p (fst e) x Hp); auto.
-        destruct He as [->|[->|->]]; auto. }
+        destruct He as [ -> | [ -> | -> ] ]; auto. }
       unfold Subst.tokens. apply in_map. apply ptable_In. exists p. split; auto.
       apply filter_In; split; auto. apply str_mem_In; auto.
   - rewrite apply_row_seq. apply SubstProofs.seq_eq_sim_gen; auto. apply incl_refl.
+Qed.
+
+(* ------------------------------------------------------------------------ *)
+(** * [sim] only looks at the entries whose token occurs in the text *)
+Lemma lookup_prefix_map {A} (f v : A -> str) qs x :
+  Subst.lookup_prefix (map (fun q => (f q, v q)) qs) x =
+  option_map (fun q => (f q, v q)) (find (fun q => prefixb (f q) x) qs).
+Proof. induction qs as [|q qs IH]; simpl; auto. destruct (prefixb (f q) x); auto. Qed.
+
+Lemma sim_go_ext {A} (f v v' : A -> str) qs : forall x skip,
+  (forall q, In q qs -> occurs (f q) x -> v q = v' q) ->
+  Subst.sim_go (map (fun q => (f q, v q)) qs) x skip =
+  Subst.sim_go (map (fun q => (f q, v' q)) qs) x skip.
+Proof.
+  induction x as [|c r IH]; intros skip H; simpl; auto.
+  assert (Hr : forall q, In q qs -> occurs (f q) r -> v q = v' q).
+  { intros q Hq Ho. apply H; auto. apply (occurs_app_l (f q) [c] r); auto. }
+  destruct skip as [|k]; [|apply IH; auto].
+  rewrite !lookup_prefix_map. destruct (find (fun q => prefixb (f q) (c :: r)) qs) as [q|] eqn:E; simpl.
+  - apply find_some in E as [Hq Hp]. apply prefixb_spec in Hp.
+    rewrite (H q Hq (prefix_occurs (f q) [] (c :: r) Hp)). f_equal. apply IH; auto.
+  - f_equal. apply IH; auto.
+Qed.
+
+Definition pidx (ps : list param) : list (nat * param) :=
+  map (pair 0%nat) ps ++ map (pair 1%nat) ps ++ map (pair 2%nat) ps.
+Definition pidx_tok (q : nat * param) : str :=
+  match fst q with
+  | O => tok_lab (p_key (snd q))
+  | S O => tok_val (p_key (snd q))
+  | _ => tok_name (p_key (snd q))
+  end.
+Definition pidx_val (i : nat) (q : nat * param) : str :=
+  match fst q with
+  | O => plab (snd q) i
+  | S O => pval (snd q) i
+  | _ => pname (snd q)
+  end.
+
+Lemma ptable_pidx ps i : ptable ps i = map (fun q => (pidx_tok q, pidx_val i q)) (pidx ps).
+Proof. unfold ptable, pidx. rewrite !map_app, !map_map. reflexivity. Qed.
+
+Lemma sim_agree ps U i j x :
+  params_ok ps = true -> agree ps U i j = true ->
+  (forall k, In k (keys_of ps) -> uses_key k x = true -> In k U) ->
+  Subst.sim (ptable ps i) x = Subst.sim (ptable ps j) x.
+Proof.
+  intros Hok Ha Hu. destruct (params_ok_keys ps Hok) as [Hnd _].
+  unfold Subst.sim. rewrite !ptable_pidx. apply sim_go_ext.
+  intros [n p] Hq Ho. unfold pidx in Hq. rewrite !in_app_iff, !in_map_iff in Hq.
+  assert (Hp : In p ps).
+  { destruct Hq as [[p' [E Hp]]|[[p' [E Hp]]|[p' [E Hp]]]]; inversion E; subst; auto. }
+  assert (Hk : In (p_key p) U).
+  { apply Hu; [apply in_map; auto|].
+    apply (token_occurs_uses ps i p (pidx_tok (n, p)) x Hp); auto.
+    unfold pidx_tok; simpl. destruct n as [|[|n]]; auto. }
+  destruct (agree_In _ _ _ _ Ha _ Hk) as [Hv Hl].
+  unfold val_of, lab_of in *. rewrite (find_param_In ps p Hnd Hp) in *.
+  unfold pidx_val; simpl. destruct n as [|[|n]]; auto.
+Qed.
+
+Lemma no_token_left_agree ps U i j x :
+  params_ok ps = true -> agree ps U i j = true ->
+  (forall k, In k (keys_of ps) -> uses_key k x = true -> In k U) ->
+  no_token_left ps i x = no_token_left ps j x.
+Proof.
+  intros Hok Ha Hu. unfold no_token_left, Subst.token_free.
+  rewrite (sim_agree ps U i j x Hok Ha Hu), !ptable_tokens. reflexivity.
 Qed.
 
 (** C08_sound_sharing for one text *)
@@ -245,11 +313,27 @@ Theorem sound_sharing_text ps U i j x :
   params_ok ps = true ->
   agree ps U i j = true ->
   (forall k, In k (keys_of ps) -> uses_key k x = true -> In k U) ->
-  no_token_left ps i x = true -> no_token_left ps j x = true ->
+  no_token_left ps i x = true ->
   apply_row ps i x = apply_row ps j x.
 Proof.
-  intros Hok Ha Hu Fi Fj.
+  intros Hok Ha Hu Fi.
+  assert (Fj : no_token_left ps j x = true) by (rewrite <- (no_token_left_agree ps U i j x); auto).
   destruct (apply_row_restrict ps U i x Hok Hu Fi) as [-> _].
   destruct (apply_row_restrict ps U j x Hok Hu Fj) as [-> _].
   rewrite (restrict_agree ps U i j); auto. apply (params_ok_keys ps Hok).
+Qed.
+
+(** C08_sound_sharing for the fields of a staged step: rows that agree on the
+    step's used parameters expand every field of the step to the same text *)
+Theorem sound_sharing_fields ap san sp um g t i j x :
+  hygiene sp um -> SF ap san sp um g -> params_ok (sp_params sp) = true ->
+  In t (sp_steps sp) -> In x (step_texts t) ->
+  agree (sp_params sp) (used_in um (s_name t)) i j = true ->
+  no_token_left (sp_params sp) i x = true ->
+  apply_row (sp_params sp) i x = apply_row (sp_params sp) j x.
+Proof.
+  intros Hh Hsf Hok Ht Hx Ha Hf.
+  apply (sound_sharing_text (sp_params sp) (used_in um (s_name t))); auto.
+  intros k Hk Hu. apply (used_closure ap san sp um g t k Hh Hsf Ht). split; auto.
+  left. apply existsb_exists. exists x; auto.
 Qed.
